@@ -7,7 +7,7 @@ PROP = "C18"
 RULE = ("cases = raw HTTP/1.1 requests (GET/POST/OPTIONS/HEAD/PUT/DELETE; with/without Origin, Access-Control-Request-Method, Access-Control-Request-Headers) against "
         "`samply load <profile> --no-open -P <port>+` servers (plain and .gz profile, several runs): paths without the token, the token path and its API/profile children, "
         "proper prefixes and extensions of the token, case variants, percent-encodings, //, /./, /x/../ decorations, the token in the query string or after another segment. "
-        "Observed: status, Access-Control-* / Allow / Content-Encoding headers, body class (empty / landing page / profile bytes / API JSON). Tokens of all runs, and of 2 x 4 further servers started at the same moment (same clock second, neighbouring pids): 39 chars of the nix-base32 alphabet, pairwise distinct, and the 24 bytes each one encodes take at least 12 distinct values (24 random bytes do so with probability above 1 - 1e-20; a repeated byte, a short period or a counter does not). "
+        "every path also with an Origin header naming the server's own origin (http://<listen address>:<port>, and respellings of it). Observed: status, Access-Control-* / Allow / Content-Encoding headers, body class (empty / landing page / profile bytes / API JSON). Tokens of all runs, and of 2 x 4 further servers started at the same moment (same clock second, neighbouring pids): 39 chars of the nix-base32 alphabet, pairwise distinct, and the 24 bytes each one encodes take at least 10 distinct values (24 random bytes do so with probability above 1 - 1e-19, C18_token_variety_arith; a repeated byte or a short period does not). "
         "One evaluation = one server run (several hundred requests); non-trivial = the run contained requests whose path mentions the token (or a variant of it) without being served")
 TRUSTED = ["hyper's request parsing: req.uri().path() is the raw path before '?' (requests hyper rejects with 400 are judged by the property only)",
            "`samply load` always serves a profile, so the model's has_profile = false branch is proved but not exercised",
@@ -224,13 +224,13 @@ def token_bytes(tok):
 
 
 def token_guessable(tok):
-    """why an attacker could enumerate this token, or None: a token is 24 random bytes; among 24 uniformly random bytes fewer than 12 distinct values occur
-    with probability below 1e-20, so a token with that little variety was not produced by 24 independent random bytes - it belongs to a family (one byte
-    repeated, a short period, a counter) small enough to be tried exhaustively"""
+    """why an attacker could enumerate this token, or None: a token is 24 random bytes; among 24 uniformly random bytes fewer than 10 distinct values occur
+    with probability below 1e-19 (the count is machine-checked: C18_token_variety_arith), so a token with that little variety was not produced by 24
+    independent random bytes - it belongs to a family (one byte repeated, a short period) small enough to be tried exhaustively"""
     b = token_bytes(tok)
     if b is None or len(b) < 20:
         return "it does not encode 20 or more bytes"
-    if len(set(b)) < 12:
+    if len(set(b)) < 10:
         return "its %d bytes take only %d distinct values (%s...)" % (len(b), len(set(b)), b[:6].hex())
     return None
 
@@ -287,8 +287,13 @@ def evaluate(cases):
             try:
                 tokens.append(srv.token)
                 tokb = K.coq_list([str(b) for b in srv.token.encode()])
+                # requests that claim to come from the server's own origin (a public value: the address it listens on), in several spellings
+                own = [[("Origin", "http://%s:%d" % (srv.host, srv.port))],
+                       [("Origin", "http://%s:%d" % (srv.host, srv.port)), ("Access-Control-Request-Method", "GET")],
+                       [("Origin", rng.choice(["http://localhost:%d" % srv.port, "http://%s:%d/" % (srv.host, srv.port), "https://%s:%d" % (srv.host, srv.port), "null", "HTTP://%s:%d" % (srv.host.upper(), srv.port)]))]]
+                hsets = HSETS + own
                 plan = [(path, m, hs, False) for path in _paths(srv.token) for m in METHODS
-                        for hs in (HSETS if m == "OPTIONS" else [HSETS[0], rng.choice(HSETS[1:])])]
+                        for hs in (hsets if m == "OPTIONS" else [HSETS[0], rng.choice(hsets[1:]), own[0]])]
                 # the token-less paths once more, each as the second request of a connection that was first used with the token
                 plan += [(path, m, HSETS[0], True) for path in ["/profile.json", "/symbolicate/v5", "/source/v1", "/asm/v1", "/", "/x"] for m in METHODS]
                 dist["after_a_tokened_request_on_the_same_connection"] = dist.get("after_a_tokened_request_on_the_same_connection", 0) + sum(1 for x in plan if x[3])
@@ -318,7 +323,7 @@ def evaluate(cases):
                             terms.append("(Some %s, %s, %s, %s, %s, %s)" % ("true" if it[2] == "gz" else "false", tokb, rq, ob,
                                                                            "true" if r["rejected"] else "false", "true" if mentions else "false"))
                             descr.append({"method": m, "second_request_of_a_connection_first_used_with_the_token": second, "path": path.replace(srv.token, "<token>").replace(srv.token.upper(), "<TOKEN>"),
-                                          "request_headers": [k for k, _ in hs], "status": r["status"],
+                                          "request_headers": [k if k != "Origin" else "Origin: " + v.replace(str(srv.port), "<port>") for k, v in hs], "status": r["status"],
                                           "cors_headers": [k for k in h if k.startswith("access-control")], "body": r["body"]})
                             if len(samples) < 4 and mentions:
                                 samples.append(descr[-1])
